@@ -10,7 +10,7 @@ PROPS_FILES = ['Props/Properties_C17.v']
 THEOREMS = ['C17_no_cleartext_at_switch', 'C17_pending_cleartext_never_switches', 'C17_after_switch_only_tls_input',
             'C17_reset_after_switch', 'C17_mail_needs_new_greeting', 'C17_handoff_after_switch', 'C17_ready_only_if', 'C17_refused',
             'C17_not_offered', 'C17_failed_handshake', 'C17_tls_only_by_switch', 'C17_shape', 'C17_starttls_row',
-            'C17_servercert_call', 'C17_servercert_calls', 'C17_servercert_orig_refuted']
+            'C17_servercert_call', 'C17_servercert_calls', 'C17_servercert_orig_refuted', 'C17_auth_survives_switch']
 ENGINES = [dict(name='tlssession', runner='tlssession/runner.py', extract='Extract/Extract_tlssession.v', driver='tls_driver.ml',
                 glue=('glue.ml', 'glue_z.ml'), accepts=lambda c: c.startswith('7e ')),
            dict(name='servercert', c_sources=['servercert_h.c'], extract='Extract/Extract_servercert.v', driver='servercert_driver.ml',
@@ -54,7 +54,7 @@ ASSUMPTIONS = [
     'inside TLS: segments of at most 300 octets and lines below 500 octets, so that an SSL_read never leaves part of a record pending (SSL_pending = 0); '
     'the SSL_pending branch of data_pending is then equivalent to the clear-text one',
     'garbage sent instead of a ClientHello is text (second octet not 3, no SSLv2 pattern): OpenSSL fails on the 5-octet record header',
-    'no AUTH backend, port 25, CHUNKING off, no client certificates (tls_verify not reached), timeouts not reached',
+    'AUTH: PLAIN with an initial response against the checkpassword stand-in (cfg auth=1), no forcesslauth (auth_permitted is the same in both channels); port 25, CHUNKING off, no client certificates (tls_verify not reached), timeouts not reached',
 ]
 LEVEL_TEXT = ('Coq theorems for all oracles, all scripts (all pre-handshake histories, all clear-text suffixes in the same or a later segment, all handshake '
               'outcomes) about the state/buffer logic: (1) a round that switches to TLS starts from an empty lineinn and an exhausted clear-text stream and '
@@ -70,6 +70,17 @@ TECHNIQUE = ('Coq invariant proof on top of the session simulation relation (Pro
 DESIGN_REF = 'DESIGN.md section 5, C17'
 
 EHLO = b'EHLO c.example.net\r\n'
+
+import base64
+
+
+def auth_line(rng, kind):
+    """AUTH PLAIN with an initial response (as props/C01.py:auth_line; the checkpassword stand-in accepts the password 'secret')"""
+    def plain(authz, user, pw): return b'AUTH PLAIN ' + base64.b64encode(authz + b'\0' + user + b'\0' + pw) + b'\r\n'
+    user = rng.choice([b'alice', b'bob@example.org', b'u'])
+    if kind == 'good': return plain(rng.choice([b'', b'', b'admin']), user, b'secret')
+    if kind == 'wrongpw': return plain(b'', user, rng.choice([b'Secret', b'secre', b'x']))
+    return rng.choice([b'AUTH FOO\r\n', b'AUTH PLAIN !!!!\r\n'])
 
 
 def item(kind, data=b''):
@@ -94,6 +105,8 @@ def config(rng, cert=None):
            'databytes=' + rng.choice(['0', '0', '1000'])]
     plan = [rng.choice(['ok', 'ok', 'ok', 'exit:31', 'exit:100']) for _ in range(4)]
     cfg.append('qq=' + ','.join(plan))
+    if rng.random() < 0.35:
+        cfg.append('auth=1')               # checkpassword stand-in configured: AUTH is announced and permitted
     if rng.random() < 0.2:
         cfg.append('check2822=1')          # strict header checks of smtp_data: part of Session.step, used unchanged in both channels
     return ';'.join(cfg)
@@ -134,9 +147,11 @@ def prehistory(rng):
         return [EHLO, G.mail(rng, 'ok')] + ([G.rcpt(rng, 'ok')] if rng.random() < 0.6 else [])
     if r < 0.80:                       # ... and given up again
         return [EHLO, G.mail(rng, 'ok'), G.rcpt(rng, 'ok'), rng.choice([b'RSET\r\n', EHLO])]
-    if r < 0.90:                       # a complete clear-text transaction first
+    if r < 0.86:                       # a complete clear-text transaction first
         return [EHLO] + transaction(rng)
-    return [EHLO, rng.choice([b'VRFY x\r\n', b'AUTH PLAIN\r\n', b'FOO\r\n', b'NOOP\r\n'])]
+    if r < 0.95:                       # authentication (attempt) in clear text: what is obtained here survives STARTTLS
+        return [EHLO] + [auth_line(rng, rng.choice(['good', 'good', 'wrongpw', 'mech'])) for _ in range(rng.choice([1, 1, 2]))]
+    return [EHLO, rng.choice([b'VRFY x\r\n', b'FOO\r\n', b'NOOP\r\n'])]
 
 
 def tls_session(rng):
@@ -150,6 +165,8 @@ def tls_session(rng):
         ch.append(rng.choice([EHLO, EHLO, b'EHLO tls.example.net\r\n', b'HELO tls.example.net\r\n']))
         if rng.random() < 0.3:
             ch.append(b'STARTTLS\r\n')
+        if rng.random() < 0.25:        # AUTH inside TLS (refused with 503 when the client authenticated in clear text already)
+            ch.append(auth_line(rng, rng.choice(['good', 'good', 'wrongpw'])))
         for _ in range(rng.choice([0, 1, 1, 2])):
             ch += transaction(rng)
         if rng.random() < 0.2:
@@ -176,9 +193,19 @@ def padded_starttls(rng, target):
 
 def gen_one(rng):
     cfg = config(rng)
-    fam = rng.choice(['clean'] * 4 + ['suffix'] * 4 + ['split', 'boundary', 'later', 'later', 'later', 'refused-hello', 'close', 'intls', 'nocert', 'helo', 'certname'])
+    fam = rng.choice(['clean'] * 4 + ['auth'] + ['suffix'] * 4 + ['split', 'boundary', 'later', 'later', 'later', 'refused-hello', 'close', 'intls', 'nocert', 'helo', 'certname'])
     pre = prehistory(rng)
-    if fam == 'clean':
+    if fam == 'auth':
+        # AUTH in clear text, STARTTLS, then a recipient outside rcpthosts inside TLS: accepted iff the authentication carried over
+        cfg = config(rng, 'good')
+        if 'auth=1' not in cfg and rng.random() < 0.85:
+            cfg += ';auth=1'
+        cfg = cfg.replace('relay=listed', 'relay=none')
+        k1 = rng.choice(['good', 'good', 'good', 'wrongpw'])
+        tls = [EHLO] + ([auth_line(rng, rng.choice(['good', 'wrongpw']))] if rng.random() < 0.4 else [])
+        tls += [G.mail(rng, 'ok'), G.rcpt(rng, 'remote'), G.rcpt(rng, rng.choice(['ok', 'remote'])), b'DATA\r\n', small_body(rng)]
+        items = [S(EHLO), S(auth_line(rng, k1)), S(b'STARTTLS\r\n'), H] + [S(c) for c in tls_split(tls)]
+    elif fam == 'clean':
         items = [S(c) for c in pre] + [S(b'STARTTLS\r\n'), H] + tls_session(rng)
         if rng.random() < 0.2:
             items.append(C)
@@ -280,7 +307,7 @@ def nontrivial(case, c_out):
 def distribution(results):
     d = dict(switched=0, handshake_refused_by_client_view=0, cleartext_suffix_same_segment=0, suffix_cases_that_switched=0, garbage_454=0,
              unmodelled=0, tls_replies=0, starttls_refused_in_tls=0, offers=0, handoffs_in_tls=0, handoffs_clear=0, closed=0,
-             judged_by_trace_checker=0)
+             judged_by_trace_checker=0, auth_235_clear=0, auth_235_tls=0, esmtpsa_handoffs_after_clear_auth=0)
     d['servercert_calls'] = 0
     d['servercert_found'] = 0
     for r in results:
@@ -292,6 +319,8 @@ def distribution(results):
         suffix = False
         for x in r['case'].split()[2:]:
             b = bytes.fromhex(x)
+            if b[:1] in (b'H', b'B'):
+                break                     # only the clear text in front of the first handshake item
             i = b.upper().find(b'STARTTLS\r\n')
             if b[:1] == b'S' and i >= 0 and len(b) > i + 10:
                 suffix = True
@@ -313,6 +342,10 @@ def distribution(results):
                     d['handoffs_in_tls'] += 1
                 else:
                     d['handoffs_clear'] += 1
+        d['auth_235_clear'] += t.count('c235')
+        d['auth_235_tls'] += t.count('t235')
+        if 'c235' in t and 't235' not in t:
+            d['esmtpsa_handoffs_after_clear_auth'] += sum(1 for x in t if x.startswith('Q') and '/' in x and b'ESMTPSA' in bytes.fromhex(x.split('/')[1].replace('-', '')))
         if t and t[-1] == 'closed': d['closed'] += 1
         if r.get('spec') == 'ok+trace': d['judged_by_trace_checker'] += 1
     return d
